@@ -229,6 +229,11 @@ def run(ctx: core.Ctx) -> int:
                held_state=["state", "covariance"], readings_param="readings", output_param=names[0], control_param="control", lang="py")
     traces["python"] = canon(te.events)
     flow_py(ctx, rel, cls, body, names)
+    # "the Python and C++ runtimes issue the same sequence of filter calls": both step with the same maximum, i.e. the configured value reaches the
+    # generated C++ constant without lossy formatting (C10's MAG rule on the generator)
+    from . import c10 as _c10
+    ctx.rule("MAG", "the configured maximum step is printed losslessly into cpp::Config::max_dt_sec / Tag::max_dt_sec (shared with C10)")
+    _c10.mag_gen(ctx)
     nt = cpp_part(ctx, traces)
     ctx.floor("TICKPLAN", nt + 1, 9, "tick bodies (1 Python + 2 per C++ valuation)")
     ref = traces.get("python")
